@@ -15,9 +15,6 @@ namespace Uec.Props.C12
 open Uec Uec.Lin Finset
 variable {α β : Type} (U : UserLaw)
 
-/-- exact probability that one `f32` draw lies below `rate` -/
-def P (rate : Nat) : ℚ := (cutoff rate : ℚ) / 2 ^ 24
-
 /-- `P rate` is the configured rate up to the grid: for a finite `0 ≤ rate ≤ 1` (value `s·2⁻¹⁴⁹`),
     `rate ≤ P rate < rate + 2⁻²⁴` -/
 theorem P_close (rate : Nat) (s : ℤ) (h : F32.decode rate = .fin s) (h0 : 0 ≤ s) (h1 : s ≤ F32.oneScaled) :
@@ -77,11 +74,6 @@ theorem flip_law (rate : Nat) (neg : α → α) (g : List α) (j : Nat) (hj : j 
       have hj' : j < xs.length := by simpa using hj
       simp only [List.getElem?_cons_succ, List.getElem_cons_succ, ih j hj']
       ring
-
-/-- number of positions at which two genomes differ -/
-def diffCount [DecidableEq α] : List α → List α → ℕ
-  | x :: xs, y :: ys => (if x = y then 0 else 1) + diffCount xs ys
-  | _, _ => 0
 
 /-- **expected number of flips** `= length · P rate` (genes whose negation differs from them) -/
 theorem expected_flips [DecidableEq α] (rate : Nat) (neg : α → α) (g : List α) (hn : ∀ x ∈ g, neg x ≠ x) :
